@@ -239,6 +239,7 @@ pub fn gen_label(r: &mut Rng) -> Vec<u8> {
         0 => vec![b'x'; 63],
         1 => vec![b'Y'; 62],
         2 => (0..r.range(1, 20)).map(|_| [b'a', b'Z', b'0', b'-', b'_', 0x80, 0xff, b' ', b'~'][r.below(9)]).collect(),
+        3 | 4 => [&b"a@b"[..], b"a`b", b"[x]", b"{x}", b"n^", b"n~", b"\xc3\x89", b"\xc3\xa9"][r.below(8)].to_vec(),
         _ => LABELS[r.below(LABELS.len())].to_vec(),
     }
 }
